@@ -86,3 +86,13 @@ Definition wire_echo_sites : list (string * string) := [
   ("kmip/core/primitives.py", "TextString.read_value");
   ("kmip/core/primitives.py", "ByteString.read_value")
 ].
+
+(* Every place of the package that changes a logger's level, filters or routing, pinned.  The two INFO lines are
+   the client-side guards ("DEBUG logging here may expose secrets, so log at INFO by default"); the server puts
+   DEBUG on `kmip.server` while it starts and then the configured level (default INFO), unconditionally. *)
+Definition setlevel_pinned : list (string * string * string) := [
+  ("kmip/core/config_helper.py", "ConfigHelper.__init__", "setLevel(logging.INFO)");
+  ("kmip/services/kmip_protocol.py", "KMIPProtocol.__init__", "setLevel(logging.INFO)");
+  ("kmip/services/server/server.py", "KmipServer.__init__", "setLevel(self.config.settings.get('logging_level'))");
+  ("kmip/services/server/server.py", "KmipServer._setup_logging", "setLevel(logging.DEBUG)")
+].
